@@ -133,6 +133,10 @@ def run_case(c):
                     if src.get("member_name"):
                         pyval = (X.build(src["type"]).__name__, pyval)
                 assign_at(t, top, [tuple(s) for s in op["path"]], pyval)
+            elif o == "assign":
+                t, obj, bn = objs[op["obj"]]
+                top = obj if op.get("via", "handle") == "handle" else X.build(t)._from_buffer(bufs[bn], obj._offset)
+                assign_at(t, top, [tuple(s) for s in op["path"]], objs[op["src"]][1])
             elif o == "write":
                 t, obj, bn = objs[op["obj"]]
                 top = obj if op.get("via", "handle") == "handle" else X.build(t)._from_buffer(bufs[bn], obj._offset)
